@@ -297,18 +297,26 @@ func (s *Session) Run(ctx context.Context, dir string, args ...string) error {
 								}
 
 								if output.Guard != nil {
-									exe, err := output.Guard.Exec(ctx, bss[0], nil)
-									if err != nil {
-										return err
+									// Offer the guard each set of
+									// bindings (as a branch of a spec
+									// does) - and not just the first,
+									// which is whichever the matcher
+									// happened to put there.
+									var accepted []match.Bindings
+									for _, bs := range bss {
+										exe, err := output.Guard.Exec(ctx, bs, nil)
+										if err != nil {
+											return err
+										}
+										if exe.Bs != nil {
+											accepted = []match.Bindings{exe.Bs}
+											break
+										}
 									}
-									if exe.Bs == nil {
-										// The guard rejected these
-										// bindings, so this output
-										// isn't satisfied.
-										bss = nil
-									} else {
-										bss = []match.Bindings{exe.Bs}
-									}
+									// If the guard rejected all of
+									// them, this output isn't
+									// satisfied.
+									bss = accepted
 								}
 							}
 							if 0 < len(bss) {
